@@ -883,6 +883,12 @@ fn split_canon(s: String) -> (String, Option<u64>) {
 }
 
 fn run_bai(c: &Case) -> Obs {
+    run_bai_k(c, false)
+}
+
+/// `kinds`: the observation carries the io::ErrorKind of every refused cut (kind `baik`, compared
+/// with NV.Trunc.ProgCut.read_bai_k = C12's read program p_bai run on the prefix)
+fn run_bai_k(c: &Case, kinds: bool) -> Obs {
     let file = Arc::new(c.b(0));
     let cuts = parse_cuts(&c.args[1], file.len());
     let intact = read_bai(&file).map(|i| canon_bai(&i));
@@ -899,9 +905,18 @@ fn run_bai(c: &Case) -> Obs {
         toks.push(match &r {
             Ok(s) => format!("Ok:{s}"),
             Err(Stop::Panic(_)) => "Panic".to_string(),
+            Err(s) if kinds => s.text(),
             Err(_) => "Err".to_string(),
         });
         n_err += r.is_err() as usize;
+        if kinds && intact.is_ok() {
+            // proved (bai_prefix_kind): a prefix of accepted bytes is refused with UnexpectedEof only
+            if let Err(Stop::Err(kd)) = &r {
+                if kd != "UnexpectedEof" {
+                    fails.push(("bai-cut-error-kind-not-eof".to_string(), format!("cut {k}: {kd}")));
+                }
+            }
+        }
         if let Ok(orig) = &intact {
             let orig = split_canon(orig.clone());
             if let Err(f) = check_index_cut("bai", k, &r.map(split_canon), &orig, k == file.len()) {
@@ -911,7 +926,7 @@ fn run_bai(c: &Case) -> Obs {
             fails.push(("panic-bai".to_string(), format!("cut {k}: {m}")));
         }
     }
-    Obs { obs: toks.join(" "), verdict: "ok".into(), nontrivial: intact.is_ok() && n_err > 4 }.with_verdict(first_fail(fails))
+    Obs { obs: toks.join(" "), verdict: "ok".into(), nontrivial: (intact.is_ok() || kinds) && n_err > 4 }.with_verdict(first_fail(fails))
 }
 
 // ---------------------------------------------------------------------------------------------
@@ -2734,6 +2749,7 @@ fn run(c: &Case) -> Obs {
         "bamz" | "bcfz" => run_bamz(c),
         "bcfeager" => run_bcf_eager(c),
         "bai" => run_bai(c),
+        "baik" => run_bai_k(c, true),
         "cramc" => run_cramc(c),
         "gzi" => run_gzi(c),
         "textz" => run_textz(c),
@@ -2869,6 +2885,19 @@ fn generate(rng: &mut Rng, tier: &str, w: &mut CaseWriter) {
         let file = files::bai_file(&ix);
         let cuts = if file.len() <= 4096 { "all".to_string() } else { fmt_cuts(&choose_cuts(rng, file.len(), &[file.len() - 8], 300)) };
         w.push("bai", vec![hex(&file), cuts]);
+    }
+
+    // --- modelled: BAI with error kinds (read program p_bai): written files at every cut, and the
+    // same files with a damaged magic number (InvalidData from cut 4 on, UnexpectedEof below)
+    for n in 0..(8 * scale) {
+        let ix = files::bai_index(rng, true);
+        let mut file = files::bai_file(&ix);
+        if n % 4 == 3 {
+            let at = rng.below(4) as usize;
+            file[at] ^= 1 + rng.below(255) as u8;
+        }
+        let cuts = if file.len() <= 4096 { "all".to_string() } else { fmt_cuts(&choose_cuts(rng, file.len(), &[file.len() - 8], 300)) };
+        w.push("baik", vec![hex(&file), cuts]);
     }
 
     // --- modelled: CRAM at the container level (file definition, header container, 1..n data
